@@ -151,26 +151,26 @@ def runEos (phi0 phi1 n : Nat) (dt : Float) : Bool → Bool → List String → 
       | _ => ([], b)
     runEos phi0 phi1 n dt safe' b' os ((",".intercalate (ps.map eopStr) ++ "@" ++ bs b') :: acc)
 
-/-- `W coord kernel corrector corrector2 safe keep c2fixed isSync recalc allocated op*` -/
+/-- `W coord kernel corrector corrector2 safe keep c2fixed p1fix isSync recalc allocated op*` -/
 def step (toks : List String) : String :=
   match toks with
-  | "W" :: co :: ke :: cr :: c2 :: sa :: kp :: fx :: isy :: rc :: al :: ops =>
+  | "W" :: co :: ke :: cr :: c2 :: sa :: kp :: fx :: pf :: isy :: rc :: al :: ops =>
     match coordOf co, ke.toNat?, cr.toNat?, ops.mapM groupOf with
     | some co, some ke, some cr, some ops =>
-      runGroups whMachine (⟨co, ke, cr, b01 c2, b01 sa, b01 kp, b01 fx, false⟩, ⟨b01 isy, b01 rc, b01 al⟩) ops []
+      runGroups whMachine (⟨co, ke, cr, b01 c2, b01 sa, b01 kp, b01 fx, false, b01 pf⟩, ⟨b01 isy, b01 rc, b01 al⟩) ops []
     | _, _, _, _ => "bad-op"
-  | "S" :: ty :: sa :: kp :: ci :: isy :: rc :: al :: ops =>
+  | "S" :: ty :: sa :: kp :: ci :: pf :: isy :: rc :: al :: ops =>
     match ty.toNat?, ops.mapM groupOf with
-    | some ty, some ops => runGroups sabaMachine (⟨ty, b01 sa, b01 kp, b01 ci⟩, ⟨b01 isy, b01 rc, b01 al⟩) ops []
+    | some ty, some ops => runGroups sabaMachine (⟨ty, b01 sa, b01 kp, b01 ci, b01 pf⟩, ⟨b01 isy, b01 rc, b01 al⟩) ops []
     | _, _ => "bad-op"
   | ["FOOT"] => footStr
   | "E" :: p0 :: p1 :: n :: sa :: isy :: dt :: ops =>
     match p0.toNat?, p1.toNat?, n.toNat? with
     | some p0, some p1, some n => runEos p0 p1 n (fl dt) (b01 sa) (b01 isy) ops []
     | _, _, _ => "bad-op"
-  | "V" :: sa :: kp :: vf :: isy :: rc :: al :: ops =>
+  | "V" :: sa :: kp :: vf :: pf :: isy :: rc :: al :: ops =>
     match ops.mapM groupOf with
-    | some ops => runGroups varMachine (⟨.jacobi, 0, 0, false, b01 sa, b01 kp, false, b01 vf⟩, ⟨b01 isy, b01 rc, b01 al⟩) ops []
+    | some ops => runGroups varMachine (⟨.jacobi, 0, 0, false, b01 sa, b01 kp, false, b01 vf, b01 pf⟩, ⟨b01 isy, b01 rc, b01 al⟩) ops []
     | none => "bad-op"
   | "MC" :: sa :: isy :: rc :: rr :: ad :: atm :: ops =>
     match ops.mapM groupOf with
